@@ -4,6 +4,7 @@
 //!   pgmc replay <ID> <file>               re-run one recorded case without the explorer
 #[allow(dead_code)]
 mod ast;
+mod dec;
 mod e1;
 mod fw;
 mod model;
